@@ -49,6 +49,35 @@ def ramp_scenario(rng, tick, length):
     return cfg, steps
 
 
+def long_recovery_scenario(rng, days, early, late):
+    """a recovery period of months (ticks of one second) with many requests early in the ramp, silence, and many late in it:
+    recovery[ns] x requests goes beyond 2^63. Arrivals sit on a grid of recovery/100 so that the model's integers stay small."""
+    recovery = days * 86400
+    unit = recovery // 100
+    cfg = {"tick_ms": 1000, "fallback": 10, "recovery": recovery, "check": 1, "ast": B.NETERR, "expr": B.render(B.NETERR)}
+    steps, rid = [], 0
+    def req(code):
+        nonlocal rid
+        rid += 1
+        steps.append({"op": "start", "r": rid})
+        steps.append({"op": "finish", "r": rid, "code": code})
+    for _ in range(3):
+        req(502)
+        steps.append({"op": "adv", "d": 1})
+    steps.append({"op": "adv", "d": 11})
+    req(200)                                   # enters recovery: the ramp starts here
+    at = 0
+    for pct, n in ((rng.choice([5, 10, 20]), early), (rng.choice([50, 60]), 5), (rng.choice([80, 90, 95]), late)):
+        steps.append({"op": "adv", "d": (pct - at) * unit})
+        at = pct
+        for _ in range(n):
+            req(200)
+    steps.append({"op": "adv", "d": (101 - at) * unit})
+    for _ in range(3):
+        req(200)
+    return cfg, steps
+
+
 def scenarios(ctx):
     rng = random.Random(ctx.seed * 8111 + 12)
     quick = ctx.quick()
@@ -57,6 +86,10 @@ def scenarios(ctx):
         tick = rng.choice([100, 100, 250, 1000])
         cfg, steps = ramp_scenario(rng, tick, 250 if quick else 800)
         out.append({"id": "ramp-%d" % i, "cfg": cfg, "steps": steps})
+    for i, (days, early, late) in enumerate([(200, 300, 500), (400, 150, 300)] if quick else
+                                            [(200, 300, 500), (400, 150, 300), (150, 500, 1500), (1000, 100, 200)]):
+        cfg, steps = long_recovery_scenario(rng, days, early, late)
+        out.append({"id": "long-%d" % i, "cfg": cfg, "steps": steps})
     return out
 
 
